@@ -277,7 +277,8 @@ class Workspace(AbstractContextManager):
             (k, kwargs[k]) for k in entity_kwargs.keys() & kwargs.keys()
         )
         entity_type_kwargs.update(
-            (k, kwargs[k]) for k in entity_type_kwargs.keys() & kwargs.keys()
+            (k, kwargs[k])
+            for k in (entity_type_kwargs.keys() - entity_kwargs.keys()) & kwargs.keys()
         )
 
         if not isinstance(parent, (ObjectBase, Group, Workspace)):
